@@ -641,3 +641,137 @@ class StateTranslator(c2lean.Translator):
         if node.get("kind") != "IntegerLiteral":
             raise Untranslatable("initialiser of %s is not an integer literal" % name)
         return self.lit(int(node["value"]), rep)
+
+
+# --------------------------------------------------------------------------------------------
+# memo prologues of the floating-point samplers (abstract double arithmetic)
+# --------------------------------------------------------------------------------------------
+
+class MemoTranslator:
+    """Translates the memo prologue of a sampler — the leading statements of the function body that maintain its
+    function-static `double` cache — into a Lean function over an abstract `FloatOps F`:
+
+        def <fn>_prologue {F} (o : FloatOps F) (<params> : F) (m : <fn>_Memo F) : <fn>_Memo F
+
+    Accepted: the library's assert statements (skipped), declarations of the statics, `if (cond) { stores } [else { stores }]`
+    and plain stores `static = expr`, where expressions are built from parameters, the statics, floating literals,
+    + - * /, unary -, comparisons and calls of one-argument libm functions (kept abstract: `o.fn "sqrt" x`).
+    The rest of the body must not write the statics (checked)."""
+    BIN = {"+": "add", "-": "sub", "*": "mul", "/": "div"}
+    CMP = {"!=": "ne", "==": "eq", "<": "lt", "<=": "le", ">": "gt", ">=": "ge"}
+
+    def __init__(self, fn, inv):
+        self.fn = fn
+        self.name = fn["name"]
+        self.statics = [e for e in inv if e["scope"] == self.name]
+        self.ids = {e["id"]: e["name"] for e in self.statics}
+        for e in self.statics:
+            if norm_type(e["ctype"]) != "double":
+                raise Untranslatable("memo static %s of %s is not a double" % (e["name"], self.name))
+        self.params = {}
+        for c in fn.get("inner", []):
+            if c.get("kind") == "ParmVarDecl":
+                self.params[c["id"]] = (c["name"], norm_type(qt(c)))
+
+    def unwrap(self, n):
+        while n.get("kind") in ("ParenExpr", "ConstantExpr") or (n.get("kind") == "ImplicitCastExpr" and
+                                                                 n.get("castKind") in ("LValueToRValue", "NoOp", "FunctionToPointerDecay")):
+            n = n["inner"][0]
+        return n
+
+    def is_assert(self, s):
+        s0 = s
+        while s0.get("kind") == "ParenExpr":
+            s0 = s0["inner"][0]
+        if s0.get("kind") == "DoStmt":
+            return True          # NDEBUG form: do { (void)sizeof(...); } while (0)
+        if s0.get("kind") == "ConditionalOperator":
+            def calls_noreturn(n):
+                if isinstance(n, dict):
+                    if n.get("kind") == "CallExpr" and "noreturn" in json.dumps(n["inner"][0].get("type", {})):
+                        return True
+                    return any(calls_noreturn(c) for c in n.get("inner", []))
+                return False
+            return calls_noreturn(s0)
+        return False
+
+    def writes_static(self, n):
+        if isinstance(n, dict):
+            k = n.get("kind")
+            if k in ("BinaryOperator", "CompoundAssignOperator") and (n.get("opcode") == "=" or k == "CompoundAssignOperator") or \
+                    k == "UnaryOperator" and n.get("opcode") in ("++", "--", "&"):
+                t = self.unwrap(n["inner"][0])
+                if t.get("kind") == "DeclRefExpr" and t["referencedDecl"].get("id") in self.ids:
+                    return True
+            return any(self.writes_static(c) for c in n.get("inner", []))
+        return False
+
+    def expr(self, n):
+        n = self.unwrap(n)
+        k = n.get("kind")
+        if k == "DeclRefExpr":
+            rid = n["referencedDecl"].get("id")
+            if rid in self.ids:
+                return "m.%s" % self.ids[rid]
+            if rid in self.params and self.params[rid][1] == "double":
+                return self.params[rid][0]
+            raise Untranslatable("memo prologue of %s refers to %s" % (self.name, n["referencedDecl"].get("name")))
+        if k == "FloatingLiteral":
+            return '(o.lit "%s")' % n["value"]
+        if k == "BinaryOperator" and n["opcode"] in self.BIN:
+            return "(o.%s %s %s)" % (self.BIN[n["opcode"]], self.expr(n["inner"][0]), self.expr(n["inner"][1]))
+        if k == "BinaryOperator" and n["opcode"] in self.CMP:
+            return "(o.%s %s %s)" % (self.CMP[n["opcode"]], self.expr(n["inner"][0]), self.expr(n["inner"][1]))
+        if k == "UnaryOperator" and n["opcode"] == "-":
+            return "(o.neg %s)" % self.expr(n["inner"][0])
+        if k == "CallExpr" and len(n["inner"]) == 2:
+            callee = self.unwrap(n["inner"][0])
+            if callee.get("kind") == "DeclRefExpr" and norm_type(qt(n)) == "double":
+                return '(o.fn "%s" %s)' % (callee["referencedDecl"]["name"], self.expr(n["inner"][1]))
+        raise Untranslatable("memo prologue of %s: expression kind %s" % (self.name, k))
+
+    def block(self, ss):
+        if not ss:
+            return "m"
+        s, rest = ss[0], ss[1:]
+        k = s.get("kind")
+        if k == "CompoundStmt":
+            return self.block(list(s.get("inner", [])) + rest)
+        if k == "NullStmt" or self.is_assert(s):
+            return self.block(rest)
+        if k == "DeclStmt" and all(v.get("kind") == "VarDecl" and v.get("storageClass") == "static" for v in s["inner"]):
+            return self.block(rest)
+        if k == "IfStmt":
+            parts = s["inner"]
+            c = self.expr(parts[0])
+            t = self.block([parts[1]] + rest)
+            e = self.block(([parts[2]] if s.get("hasElse") else []) + rest)
+            return "if %s then\n%s\nelse\n%s" % (c, ind(t), ind(e))
+        if k == "BinaryOperator" and s.get("opcode") == "=":
+            t = self.unwrap(s["inner"][0])
+            if t.get("kind") == "DeclRefExpr" and t["referencedDecl"].get("id") in self.ids:
+                return "let m := { m with %s := %s }\n%s" % (self.ids[t["referencedDecl"]["id"]], self.expr(s["inner"][1]), self.block(rest))
+        raise Untranslatable("memo prologue of %s: statement kind %s" % (self.name, k))
+
+    def translate(self):
+        body = [c for c in self.fn["inner"] if c.get("kind") == "CompoundStmt"][0]["inner"]
+        last = -1
+        for i, s in enumerate(body):
+            if self.writes_static(s):
+                last = i
+        pro, rest = body[:last + 1], body[last + 1:]
+        # `return`, loops etc. inside the prologue are outside the subset (block() rejects them)
+        text = self.block(pro)
+        mt = "%s_Memo" % self.name
+        ps = [p for p, t in self.params.values() if t == "double"]
+        inits = []
+        for e in self.statics:
+            init = [c for c in e["node"].get("inner", []) if c.get("kind") == "FloatingLiteral"]
+            if not init and any(not c.get("kind", "").endswith("Attr") for c in e["node"].get("inner", [])):
+                raise Untranslatable("initialiser of %s in %s is not a floating literal" % (e["name"], self.name))
+            inits.append('%s := o.lit "%s"' % (e["name"], init[0]["value"] if init else "0"))
+        out = ["structure %s (F : Type) where" % mt] + ["  %s : F" % e["name"] for e in self.statics] + [
+            "", "def %s.init {F : Type} (o : FloatOps F) : %s F :=\n  { %s }" % (mt, mt, ", ".join(inits)), "",
+            "def %s_prologue {F : Type} (o : FloatOps F) %s(m : %s F) : %s F :=\n%s" % (
+                self.name, "".join("(%s : F) " % p for p in ps), mt, mt, ind(text)), ""]
+        return "\n".join(out), [e["name"] for e in self.statics]
